@@ -380,6 +380,15 @@ pub fn gen_c05(seed: u64, thorough: bool) -> Plan {
     // there keeps polling its decoder after an error (which a plain `Framed` does not)
     let transport = if (seed as usize / (2 * cells.len())) % 2 == 1 { Transport::Ws } else { Transport::Tcp };
     let (mut plan, mut g) = link_plan("C05", "link-tamper", seed, &cells, transport);
+    if transport == Transport::Ws && g.chance(50) {
+        // tiny writes in the middle of the stream: a sealed length field and a sealed 2-byte payload have the same size
+        let f = &mut plan.flows[0];
+        for ops in [&mut f.up, &mut f.down] {
+            if let Some(Op::Write(n)) = ops.iter_mut().filter(|o| matches!(o, Op::Write(_))).nth(1) {
+                *n = 2;
+            }
+        }
+    }
     plan.extra["flip_stride"] = (if thorough { 1 } else { 1 }).into();
     plan.extra["random_edits"] = (if thorough { 400 } else { 60 }).into();
     plan.extra["sub_seed"] = g.next().into();
@@ -507,6 +516,30 @@ pub fn execute_c05(plan: &Plan) -> Outcome {
                     let flips = by_off.into_iter().collect::<Vec<_>>();
                     let first = flips.iter().map(|f| f.0).min().unwrap();
                     cases.push((DirScript { flips, ..Default::default() }, format!("multi-byte edit in [{a},{b}) of {n}"), first));
+                }
+            }
+        }
+        // WebSocket carrier: edits at message level (the units an attacker on that carrier works with): every message dropped,
+        // sent twice, swapped with its successor; one bit of a message flipped and the next message beheaded / cut down so
+        // that what follows lines up again with a decoder that kept its state after the failure
+        if let (Some(ranges), Some(p)) = (&payload_ranges, &pre) {
+            let _ = p;
+            let m = ranges.len() as u64;
+            for j in 0..m {
+                let (a, b) = ranges[j as usize];
+                let mut push = |ops: Vec<(u64, u8, u64)>, what: String, at: u64| {
+                    cases.push((DirScript { ws_mode: 1, ws_ops: ops, ..Default::default() }, what, at));
+                };
+                push(vec![(j, 0, 0)], format!("websocket message {j} of {m} dropped"), a);
+                push(vec![(j, 1, 0)], format!("websocket message {j} of {m} sent twice"), b);
+                if j + 1 < m {
+                    push(vec![(j, 2, 0)], format!("websocket messages {j} and {} swapped", j + 1), a);
+                    let flip_at = g.below((b - a).max(1));
+                    for k in [2u64, 18, 20, 34] {
+                        push(vec![(j, 3, flip_at), (j + 1, 4, k)], format!("websocket message {j} tampered, first {k} bytes of message {} removed", j + 1), a);
+                        push(vec![(j, 3, flip_at), (j + 1, 5, k)], format!("websocket message {j} tampered, message {} cut down to its first {k} bytes", j + 1), a);
+                    }
+                    push(vec![(j, 3, flip_at), (j + 1, 0, 0)], format!("websocket message {j} tampered, message {} dropped", j + 1), a);
                 }
             }
         }
